@@ -81,13 +81,13 @@ Proof.
 Qed.
 
 Lemma seq_bytes_length : forall f w, calcsize (String.append "<" f) = Some w -> calcsize (String.append "<" (lower f)) = Some w ->
-  forall vals bs, seq_bytes f vals = Done bs -> zlen bs = w * zlen vals.
+  forall l vals bs, seq_bytes l f vals = Done bs -> zlen bs = w * zlen vals.
 Proof.
   intros f w H1 H2. induction vals as [|t vals IH]; intros bs H.
   - cbn in H. injection H as <-. unfold Passes.zlen. cbn. lia.
   - cbn [Passes.seq_bytes] in H. destruct (py_int_lit t) as [z|]; [|discriminate].
     destruct (struct_pack (String.append "<" (if z <? 0 then lower f else f)) z) as [[b1|e]|] eqn:Hp; try discriminate.
-    destruct (seq_bytes f vals) as [rest| |] eqn:Hr; try discriminate. cbn [Passes.obind] in H. injection H as <-.
+    destruct (seq_bytes l f vals) as [rest| |] eqn:Hr; try discriminate. cbn [Passes.obind] in H. injection H as <-.
     apply struct_pack_size in Hp.
     assert (Hb : zlen b1 = w) by (destruct (z <? 0); congruence).
     specialize (IH rest eq_refl). unfold Passes.zlen in *. rewrite app_length. cbn [List.length]. lia.
@@ -109,10 +109,10 @@ Proof.
       try (eapply pass_ok_step; [apply same_refl|apply IH; exact H]).
     destruct (negb (all_ints vals)); [discriminate|].
     destruct (seq_fmt name) as [f|] eqn:Hf; [|discriminate].
-    destruct (seq_bytes f vals) as [bs| |] eqn:Hb; try discriminate. cbn [Passes.obind] in H.
+    destruct (seq_bytes l f vals) as [bs| |] eqn:Hb; try discriminate. cbn [Passes.obind] in H.
     destruct (seq_fmt_width _ _ Hf) as (w & Hw & C1 & C2).
     apply pass_ok_step with (y := (l, IBlob bs)); [|apply IH; exact H].
-    repeat split. cbn [snd Passes.size]. rewrite Hw. rewrite (seq_bytes_length f w C1 C2 _ _ Hb). reflexivity.
+    repeat split. cbn [snd Passes.size]. rewrite Hw. rewrite (seq_bytes_length f w C1 C2 _ _ _ Hb). reflexivity.
 Qed.
 
 Lemma data_transform_shorthand_same : forall its acc out, transform_shorthand its acc = Done out -> pass_ok out acc its.
@@ -254,7 +254,7 @@ Proof.
         try (destruct (IH _ _ H) as (ys & -> & F2); eexists (_ :: ys); cbn [rev]; rewrite <- app_assoc; split; [reflexivity|];
              constructor; [unfold R; intros ? ? ? E; exact E|exact F2]).
       destruct (negb (all_ints vals)); [discriminate|]. destruct (seq_fmt name); [|discriminate].
-      destruct (seq_bytes s vals); try discriminate. cbn [Passes.obind] in H.
+      destruct (seq_bytes l s vals); try discriminate. cbn [Passes.obind] in H.
       destruct (IH _ _ H) as (ys & -> & F2). eexists (_ :: ys). cbn [rev]. rewrite <- app_assoc. split; [reflexivity|].
       constructor; [unfold R; intros ? ? ? E; discriminate E|exact F2]. }
   assert (S2 : Forall2 R i1 i2).
